@@ -1,6 +1,15 @@
 (** C08 - Byte-window views behave as read-only files under any seek/read history.
     Property theorems only. *)
-From SE Require Import Base Stream FatProofs StreamProofs.
+From SE Require Import Base Stream FatProofs StreamProofs StreamRevProofs.
+
+(** Three families of theorems:
+    - [view_refines_file]: reversal-free nestings, histories of seek/tell/read(n >= 0);
+    - [readall_refines_file]: the same nestings, histories that also contain read(n < 0)
+      (readall): the rest of the logical content, position at the end, never out of fuel;
+    - [reversed_view_refines_file] (+ [reversed_view_aligned_history]): the sample-reversed
+      view at the top of such a nesting: an ordinary file over the sample-reversed logical
+      content of its sub-view on sample-aligned operations, BadReadSize/BadAlign with the
+      position unchanged on the others (full statement, every history, read(n < 0) too). *)
 
 (** Every well-formed nesting (any depth) of fixed-offset windows, plain wrappers,
     sector streams, sector-CHAINED files (any order of sectors) and the 2352->2048 raw-sector
@@ -48,4 +57,193 @@ Qed.
 Example ex_view_run :
   fst (run ex_view ex_content (init_state ex_view 7) [ORead 4; OSeek (-1) 2; ORead 5; OTell])
   = [OutBytes [114; 115; 104; 105]; OutPos 5; OutBytes [107]; OutPos 6].
+Proof. vm_compute. reflexivity. Qed.
+
+(** * read(n < 0) / readall() *)
+(** [ref_runA]: the ordinary read-only file in which read(n < 0) returns everything from the
+    position to the end and leaves the position at the end (no [op_ok] restriction any more).
+    The fuel that [step] gives the readall loop always suffices (no [OutFuel] output). *)
+Theorem readall_refines_file :
+  forall k size sub content ops s,
+    wf (V k size sub) content -> good (V k size sub) s ->
+    fst (run (V k size sub) content s ops)
+    = ref_runA (logical (V k size sub) content) (v_tell s) ops.
+Proof. exact readall_refines_file_lemma. Qed.
+Print Assumptions readall_refines_file.
+
+(** one read(n < 0) spelled out *)
+Theorem readall_reads_rest :
+  forall k size sub content s n,
+    wf (V k size sub) content -> good (V k size sub) s -> n < 0 ->
+    let L := logical (V k size sub) content in
+    exists s', step (V k size sub) content s (ORead n) = (OutBytes (slice L (v_tell s) (zlen L)), s')
+               /\ good (V k size sub) s' /\ v_tell s' = zlen L.
+Proof. exact readall_step_lemma. Qed.
+Print Assumptions readall_reads_rest.
+
+(** on histories without read(n < 0) the two reference files coincide *)
+Theorem ref_runA_is_ref_run :
+  forall L ops, Forall op_ok ops -> forall pos, ref_runA L pos ops = ref_run L pos ops.
+Proof. exact ref_runA_ok. Qed.
+Print Assumptions ref_runA_is_ref_run.
+
+(** * The sample-reversed view (StreamReversed) at the top of a nesting *)
+(** [wf_rev w size sub content]: 1 <= w, 0 < size, size a whole number of samples and equal to
+    the length of the well-formed sub-view's logical content.
+    [rev_ref_step] (StreamRevProofs.v) is the ordinary file [ref_stepA] over the reversed
+    content PLUS the alignment checks: seek is rejected with BadAlign when its clamped target
+    is not a multiple of w; read is rejected with BadReadSize when the number of bytes of the
+    first block it fetches (the read clipped at the end of file; one 4096 buffer clipped at
+    the end of file for read(n < 0)) is not a multiple of w, else with BadAlign when that
+    block does not end on a multiple of w; a rejected operation leaves the position
+    unchanged.  For EVERY history (no restriction on the operations) and every good state
+    (any position, any ancestor state, any base cursor) the outputs of the view are those
+    of this machine. *)
+Theorem reversed_view_refines_file :
+  forall w size sub content ops s,
+    wf_rev w size sub content -> good (V (KRev w) size sub) s ->
+    fst (run (V (KRev w) size sub) content s ops)
+    = rev_ref_run w (rev_samples w (logical sub content)) (v_tell s) ops.
+Proof. exact reversed_view_refines_file_lemma. Qed.
+Print Assumptions reversed_view_refines_file.
+
+(** the only errors of the reference machine are the two alignment errors, and they leave
+    the position unchanged *)
+Theorem reversed_view_rejection :
+  forall w R pos o e,
+    fst (rev_ref_step w R pos o) = OutErr e ->
+    snd (rev_ref_step w R pos o) = pos /\ (e = BadAlign \/ e = BadReadSize).
+Proof. exact rev_ref_step_rejected. Qed.
+Print Assumptions reversed_view_rejection.
+
+(** Aligned histories: from a sample-aligned position, every history of tell, seek(off, _)
+    with off a multiple of w and read(n) with n >= 0 a multiple of w gives exactly the
+    outputs of an ordinary read-only file over the reversed content. *)
+Theorem reversed_view_aligned_history :
+  forall w size sub content ops s,
+    wf_rev w size sub content -> good (V (KRev w) size sub) s ->
+    v_tell s mod w = 0 -> Forall (op_aligned w) ops ->
+    fst (run (V (KRev w) size sub) content s ops)
+    = ref_run (rev_samples w (logical sub content)) (v_tell s) ops.
+Proof. exact reversed_view_aligned_ops_lemma. Qed.
+Print Assumptions reversed_view_aligned_history.
+
+(** More generally: any history of seek/tell/read(n >= 0) along which the ordinary file only
+    visits sample-aligned positions (e.g. read(5) of a width-2 view two bytes before the
+    end). *)
+Theorem reversed_view_aligned_positions :
+  forall w size sub content ops s,
+    wf_rev w size sub content -> good (V (KRev w) size sub) s -> Forall op_ok ops ->
+    v_tell s mod w = 0 ->
+    Forall (fun p => p mod w = 0)
+           (ref_positions (rev_samples w (logical sub content)) (v_tell s) ops) ->
+    fst (run (V (KRev w) size sub) content s ops)
+    = ref_run (rev_samples w (logical sub content)) (v_tell s) ops.
+Proof. exact reversed_view_aligned_positions_lemma. Qed.
+Print Assumptions reversed_view_aligned_positions.
+
+(** Sample width 1: nothing is ever rejected, read(n < 0) included. *)
+Theorem reversed_view_width1 :
+  forall size sub content ops s,
+    wf_rev 1 size sub content -> good (V (KRev 1) size sub) s ->
+    fst (run (V (KRev 1) size sub) content s ops)
+    = ref_runA (rev_samples 1 (logical sub content)) (v_tell s) ops.
+Proof. exact reversed_view_width1_lemma. Qed.
+Print Assumptions reversed_view_width1.
+
+(** read(n < 0) of the reversed view works in 4096-byte buffers.  From a sample-aligned
+    position it returns the rest of the reversed content and ends at the end whenever the
+    sample width divides 4096 (the only width the code base uses is ROLAND_SAMPLE_WIDTH = 2)
+    or at most one buffer is left; otherwise (e.g. width 3, more than 4096 bytes left) the
+    first buffer is not a whole number of samples and the call is rejected with BadReadSize:
+    see [reversed_view_refines_file] and [ex_rev_readall_width3]. *)
+Theorem reversed_view_readall :
+  forall w size sub content s n,
+    wf_rev w size sub content -> good (V (KRev w) size sub) s -> n < 0 ->
+    v_tell s mod w = 0 -> (4096 mod w = 0 \/ size - v_tell s <= 4096) ->
+    let R := rev_samples w (logical sub content) in
+    exists s', step (V (KRev w) size sub) content s (ORead n)
+               = (OutBytes (slice R (v_tell s) (zlen R)), s')
+               /\ good (V (KRev w) size sub) s' /\ v_tell s' = zlen R.
+Proof. exact rev_readall_step_lemma. Qed.
+Print Assumptions reversed_view_readall.
+
+(** The reversed content byte by byte: [logical] of the reversed view (byte a of the view is
+    byte size - (a/w + 1)*w + a mod w of the sub-view) is [rev_samples]; and its slices:
+    bytes [p, p+t) for whole-sample p, t are the reversal of bytes [size-(p+t), size-p). *)
+Theorem reversed_view_logical_content :
+  forall w size sub content,
+    wf_rev w size sub content ->
+    logical (V (KRev w) size sub) content = rev_samples w (logical sub content).
+Proof. exact logical_rev. Qed.
+Print Assumptions reversed_view_logical_content.
+Theorem reversed_content_slice :
+  forall w Ls size p t,
+    0 < w -> zlen Ls = size -> size mod w = 0 -> p mod w = 0 -> t mod w = 0 ->
+    0 <= p -> 0 <= t -> p + t <= size ->
+    slice (rev_samples w Ls) p (p + t) = rev_samples w (slice Ls (size - (p + t)) (size - p)).
+Proof. exact rev_slice. Qed.
+Print Assumptions reversed_content_slice.
+
+(** a fresh reversed view is in a good state (position 0: aligned) *)
+Theorem fresh_reversed_view_good :
+  forall w size sub content c,
+    wf_rev w size sub content -> 0 <= c ->
+    good (V (KRev w) size sub) (init_state (V (KRev w) size sub) c)
+    /\ v_tell (init_state (V (KRev w) size sub) c) mod w = 0.
+Proof. exact init_good_rev. Qed.
+Print Assumptions fresh_reversed_view_good.
+
+(** Non-vacuity: Reversed 2 over Offset over a chained file (the shape built by
+    roland/s7xx/sample_file.py: StreamReversed(StreamOffset(stream, size, off), size, 2)). *)
+Definition ex_rev_sub : view := V (KOff 3) 8 (V (KSect 4 (MChain [4; 0; 2])) 12 Base).
+Definition ex_rev_view : view := V (KRev 2) 8 ex_rev_sub.
+Example ex_rev_wf : wf_rev 2 8 ex_rev_sub ex_content.
+Proof.
+  unfold wf_rev. split; [lia|]. split; [lia|]. split; [reflexivity|]. split; [reflexivity|].
+  cbn [wf ex_rev_sub kind_ok]. repeat split; try (vm_compute; congruence); try lia.
+  repeat constructor; vm_compute; congruence.
+Qed.
+Example ex_rev_content :
+  logical ex_rev_sub ex_content = [119; 100; 101; 102; 103; 108; 109; 110]
+  /\ rev_samples 2 (logical ex_rev_sub ex_content) = [109; 110; 103; 108; 101; 102; 119; 100].
+Proof. vm_compute. auto. Qed.
+(** aligned history: the ordinary file over the reversed content *)
+Example ex_rev_run_aligned :
+  let ops := [ORead 2; OSeek (-4) 2; ORead 6; OTell; OSeek 2 0; ORead 4] in
+  Forall (op_aligned 2) ops
+  /\ fst (run ex_rev_view ex_content (init_state ex_rev_view 5) ops)
+     = [OutBytes [109; 110]; OutPos 4; OutBytes [101; 102; 119; 100]; OutPos 8; OutPos 2;
+        OutBytes [103; 108; 101; 102]]
+  /\ ref_run (rev_samples 2 (logical ex_rev_sub ex_content)) 0 ops
+     = [OutBytes [109; 110]; OutPos 4; OutBytes [101; 102; 119; 100]; OutPos 8; OutPos 2;
+        OutBytes [103; 108; 101; 102]].
+Proof. split; [repeat constructor; cbn; lia|]. vm_compute. auto. Qed.
+(** non-aligned operations are rejected and do not move the position; read(3) two bytes
+    before the end is clipped to one sample and accepted; read(-1) reads the rest *)
+Example ex_rev_run_rejects :
+  fst (run ex_rev_view ex_content (init_state ex_rev_view 0)
+           [ORead 3; OTell; OSeek 3 0; OTell; ORead 2; OSeek 6 0; ORead 3; OSeek 2 0; ORead (-1); OTell])
+  = [OutErr BadReadSize; OutPos 0; OutErr BadAlign; OutPos 0; OutBytes [109; 110]; OutPos 6;
+     OutBytes [119; 100]; OutPos 2; OutBytes [103; 108; 101; 102; 119; 100]; OutPos 8].
+Proof. vm_compute. reflexivity. Qed.
+(** read(-1) of a width-3 reversed view with more than one 4096-byte buffer left is rejected
+    (StreamWrapper.readall reads buffer_length = 4096 bytes at a time); the real class
+    behaves the same: StreamReversed(BytesIO(bytes(4098)), 4098, sample_width=3).read(-1)
+    raises BadReadSize. *)
+Example ex_rev_readall_width3 :
+  let c := map (fun i => Z.of_nat i mod 251) (seq 0 (Z.to_nat 4098)) in
+  let v := V (KRev 3) 4098 Base in
+  wf_rev 3 4098 Base c
+  /\ fst (run v c (init_state v 0) [ORead (-1); OTell; OSeek 6 0; ORead (-1); OTell])
+     = [OutErr BadReadSize; OutPos 0; OutPos 6;
+        OutBytes (slice (rev_samples 3 c) 6 4098); OutPos 4098].
+Proof.
+  split; [unfold wf_rev; repeat split; try lia; vm_compute; reflexivity|].
+  vm_compute. reflexivity.
+Qed.
+(** readall on the reversal-free example view *)
+Example ex_view_readall :
+  fst (run ex_view ex_content (init_state ex_view 7) [ORead 1; ORead (-1); OTell; ORead (-3)])
+  = [OutBytes [114]; OutBytes [115; 104; 105; 106; 107]; OutPos 6; OutBytes []].
 Proof. vm_compute. reflexivity. Qed.
